@@ -588,6 +588,11 @@ def _try_interpret_as_dps(v: cirq.Operation) -> BaseDensePauliString | None:
             f'v={repr(v)}.'
         )
 
+    if any(q.x < 0 for q in ps.qubits):
+        raise ValueError(
+            'Got a Pauli operation on a `cirq.LineQubit` with a negative index, which has no '
+            f'position in a dense Pauli string.\nv={repr(v)}.'
+        )
     pauli_mask = np.zeros(max((q.x + 1 for q in ps.qubits), default=0), dtype=np.uint8)
     for q in ps.qubits:
         pauli_mask[q.x] = pauli_string.PAULI_GATE_LIKE_TO_INDEX_MAP[ps[q]]
